@@ -139,6 +139,14 @@ def prepare(ctx, uid, spec, codec, n_values, n_fuzz, rng, fixed_cases=None):
                 fuzz.append((ti, mutate(rng, rng.choice(seeds))))
             for b in seeds[:3]:
                 fuzz.append((ti, b + b'\x00'))
+            # hostile lengths: above the maximum but expressible in the length field
+            m, n = mn
+            targets = T.over_targets(spec, spec.index[(m, n)])
+            for tg in targets[:4]:
+                for _ in range(2):
+                    r = lib.attempt(compiled.encode, n, T.gen_over_value(spec, spec.index[(m, n)], rng, tg))
+                    if r[0] == 'ok' and len(r[1]) < 100000:
+                        fuzz.append((ti, bytes(r[1])))
     p.fuzz = fuzz
     files = {'ns.h': header, 'ns.c': source, 'driver.c': drv}
     p.unit = c09_cc.Unit(uid, files, 'ns.c', 'driver.c',
